@@ -201,10 +201,9 @@ func (g *c16Gen) tagFor(i int, usedTags map[string]bool, embedded bool) string {
 	return strings.Join(parts, " ")
 }
 
-// kinds that run into listed findings (P01–P04, P08, P11) are drawn less often, so that most types exercise
+// kinds that run into the listed findings P01 and P13 are drawn less often, so that most types exercise
 // every entry point to the end
-var c16ProneKinds = map[string]bool{"**scalar": true, "***bool": true, "*[]string": true, "*map": true, "**struct": true, "**struct-bare": true, "named-ptr-struct": false,
-	"*named-ptr-struct": true, "embedded-with-methods": true, "embedded-named-scalar": true}
+var c16ProneKinds = map[string]bool{"embedded-with-methods": true, "embedded-named-scalar": true, "embedded-named-slice": true}
 
 func (g *c16Gen) leaf() reflect.Type {
 	r := g.r
